@@ -36,6 +36,8 @@ var methods = []string{"ping", "find_node", "get_peers", "get", "announce_peer",
 // sequentially and in bursts; plus responses, errors and unknown message types that must be ignored.
 func scenDispatch(rng *rand.Rand, tr *sim.Trace, seg int, events int) {
 	o := opts{burst: -1, passive: rng.Intn(7) == 0, hook: rng.Intn(3) == 0, peerstore: rng.Intn(2) == 0, announcecb: rng.Intn(2) == 0}
+	o.customAddr = rng.Intn(4) == 0
+	o.zones = !o.customAddr && rng.Intn(3) == 0 // (a zone only where the address type carries it apart from the host)
 	h := newH(rng, tr, seg, o)
 	defer h.close()
 	toks := map[string][]byte{}
